@@ -187,15 +187,13 @@ theorem run_frame (ρ : List FunDef) : ∀ (f : Nat) (j : Job) (s : St), Frame s
         simp only [run]
         refine withFnCall_frame _ _ (fun s0 => ?_)
         refine bnd_frame _ _ _ (ih _ _) (fun l t => ?_)
-        have htag : Frame t (tagParamAlias e t l) := by
+        have htag : Frame t (tagParamAlias t l) := by
           unfold tagParamAlias
           split
-          · split
-            · exact Frame.of_eq rfl
-            · exact Frame.refl t
+          · exact Frame.of_eq rfl
           · exact Frame.refl t
-        have hc : Frame (tagParamAlias e t l) (cloneIfNecessary (tagParamAlias e t l) l).2 := Frame.of_eq (stacks_clone _ _)
-        generalize cloneIfNecessary (tagParamAlias e t l) l = rc at hc ⊢
+        have hc : Frame (tagParamAlias t l) (cloneIfNecessary (tagParamAlias t l) l).2 := Frame.of_eq (stacks_clone _ _)
+        generalize cloneIfNecessary (tagParamAlias t l) l = rc at hc ⊢
         obtain ⟨oc, t2⟩ := rc
         cases oc <;> simp only [bnd] <;> try exact htag.trans hc
         rename_i l2
